@@ -327,7 +327,7 @@ def build_c04(events, shapes, default_skip=None, want_mode=None, rng=None, strin
 
 
 # ------------------------------------------------------------------ C09
-FAULTS = ['wrong-output', 'exception', 'called-exception', 'helper-long', 'helper-short', 'compile', 'compile-late', 'badrepr',
+FAULTS = ['wrong-output', 'wrong-output-marker', 'wrong-output-long', 'exception', 'called-exception', 'helper-long', 'helper-short', 'compile', 'compile-late', 'badrepr',
           'badrepr-stdout', 'bad-directive', 'bad-directive-inline']
 
 
@@ -368,6 +368,20 @@ def build_c09(fault, pos, pre_want, multi, on_error='return', verbose=0, helper_
     if fault == 'wrong-output':
         g = gd.Group('print', k)
         g.want = 'not the output'
+        kind = 'gotwant'
+        exc_type = 'GotWantException'
+        failing_line = 'want'
+    elif fault == 'wrong-output-marker':
+        # a want that normalises to nothing
+        g = gd.Group('print', k)
+        g.want = '<BLANKLINE>'
+        kind = 'gotwant'
+        exc_type = 'GotWantException'
+        failing_line = 'want'
+    elif fault == 'wrong-output-long':
+        # long enough for the diff-style report; the texts hold %, {} and backslashes
+        g = gd.Group('plong', k)
+        g.want = 'row %d: 99%% done\n{0} {y} {}\n%%s %%d %%(name)s\nback\\slash\nlast line' % k
         kind = 'gotwant'
         exc_type = 'GotWantException'
         failing_line = 'want'
